@@ -1,11 +1,11 @@
 package main
 
 import (
-	"golang.org/x/tools/go/ssa"
-	"golang.org/x/tools/go/ssa/ssautil"
 	"bufio"
 	"encoding/json"
 	"fmt"
+	"golang.org/x/tools/go/ssa"
+	"golang.org/x/tools/go/ssa/ssautil"
 	"os"
 	"path/filepath"
 	"sort"
@@ -489,7 +489,10 @@ func solveAll(obls []*Obligation, cfg *runConfig) []*OblResult {
 				}
 			}
 			if cfg.dump != "" && strings.Contains(o.Name, cfg.dump) {
-				if light == "" { light0 := o.smtTextS(nil, true); os.WriteFile("/tmp/govc-dump-"+sanitize(o.Name)+".lightq.smt2", []byte(light0), 0o644) }
+				if light == "" {
+					light0 := o.smtTextS(nil, true)
+					os.WriteFile("/tmp/govc-dump-"+sanitize(o.Name)+".lightq.smt2", []byte(light0), 0o644)
+				}
 				os.WriteFile("/tmp/govc-dump-"+sanitize(o.Name)+".light.smt2", []byte(light), 0o644)
 			}
 			if o.LightWeak {
